@@ -112,8 +112,11 @@ class Interface(ModelElement):
         assert name is not None
         assert self.type is InterfaceType.DedicatedPort
 
-        # check uniqueness
-        all_names = [n.name for n in self._interfaces]
+        # check uniqueness against the model: this handle's list may be out of date if sub-interfaces
+        # were added through another handle of the same port
+        children = [Interface(name=cname, node_id=cid, topo=self.topo)
+                    for cname, cid in self.__child_names_and_ids()]
+        all_names = [n.name for n in self._interfaces] + [n.name for n in children]
         if name in all_names:
             raise TopologyException(f'Sub Interface {name} is not unique within the interface')
 
@@ -122,7 +125,7 @@ class Interface(ModelElement):
             raise TopologyException(f'Vlan must be specified for Sub Interface within the interface')
 
         all_vlans = []
-        for i in self._interfaces:
+        for i in children:
             if i.labels and i.labels.vlan:
                 all_vlans.append(i.labels.vlan)
 
@@ -140,6 +143,16 @@ class Interface(ModelElement):
 
         self._interfaces.append(iff)
         return iff
+
+    def __child_names_and_ids(self) -> List[Tuple[str, str]]:
+        """
+        Names and ids of the sub-interfaces the model holds for this interface
+        """
+        ret = list()
+        for cid in self.topo.graph_model.get_all_child_connection_points(interface_id=self.node_id):
+            _, cprops = self.topo.graph_model.get_node_properties(node_id=cid)
+            ret.append((cprops[ABCPropertyGraph.PROP_NAME], cid))
+        return ret
 
     def remove_child_interface(self, *, name: str) -> None:
         """
